@@ -115,6 +115,35 @@ def has_refs(t):
     return any(has_refs(a) for a in t[2])
 
 
+def grid_value(c, r):
+    """The content of cell (column, row) of the sheet the reference formulas are
+    evaluated on: distinct powers so that sums tell which cells were seen, how often."""
+    return float(10 ** ((r - 1) * 3 + (c - 1))) if c <= 3 and r <= 3 else 0.0
+
+
+def ref_range(name):
+    """A Ranges object for a reference name (any sheet qualification), filled from the grid."""
+    impl.F()
+    from formulas.ranges import Ranges
+    rng = Ranges.get_range(name)
+    vals = [[grid_value(c, r) for c in range(rng['n1'], min(rng['n2'], 6) + 1)]
+            for r in range(int(rng['r1']), min(int(rng['r2']), 6) + 1)]
+    return Ranges().push(name, vals)
+
+
+def filled(rg):
+    """The (possibly multi-area, compile-time folded) reference of a compiled formula's
+    input with every area filled from the grid."""
+    import numpy as np
+    from formulas.ranges import Ranges
+    out = Ranges()
+    for r in rg.ranges:
+        out.set_value(r, np.array(
+            [[grid_value(c, q) for c in range(r['n1'], min(r['n2'], 6) + 1)]
+             for q in range(int(r['r1']), min(int(r['r2']), 6) + 1)], object))
+    return out
+
+
 def treewalk(t):
     """Value of the tree computed with the library's own operator/function
     table - independent of how the library parses."""
@@ -124,6 +153,8 @@ def treewalk(t):
     k = t[0]
     if k == 'leaf':
         v = t[1]
+        if v in REFS:
+            return ref_range(v)
         if v.startswith('"'):
             return v[1:-1].replace('""', '"')
         if v.upper() in ('TRUE', 'FALSE'):
@@ -226,7 +257,9 @@ def run_parser(text, want_value=True):
     p.rpn = rpn
     if want_value:
         try:
-            p.value = builder.compile()()
+            func = builder.compile()
+            # references get the grid's content (whatever sheet they are written on)
+            p.value = func(*[filled(rg) for rg in func.inputs.values()])
             p.vstatus = 'ok'
         except BaseException as ex:  # noqa
             if isinstance(ex, (KeyboardInterrupt, SystemExit)):
